@@ -168,38 +168,93 @@ def r2_rows(ctx, rep, dec, famname, attr, rows, by_id):
                   bad="%s.%s '%s': %s" % (famname, attr, row.id_, bad))
 
 
+def _bit_test(prog, fn, atom: ast.expr, idx: str):
+    """('acc', name) for ``name & 1`` (optionally == 1 / != 0), ('direct', name) for ``(name >> idx) & 1`` or
+    ``name & (1 << idx)``; None for anything else."""
+    def cv(e):
+        try:
+            return prog.consteval(e, fn.module)
+        except Exception:
+            return None
+    e = atom
+    nonzero_only = False
+    if isinstance(e, ast.Compare) and len(e.ops) == 1:
+        c = cv(e.comparators[0])
+        if isinstance(e.ops[0], ast.Eq) and c == 1:
+            e = e.left
+        elif isinstance(e.ops[0], (ast.NotEq, ast.Gt)) and c == 0:
+            e, nonzero_only = e.left, True
+        else:
+            return None
+    if not (isinstance(e, ast.BinOp) and isinstance(e.op, ast.BitAnd)):
+        return None
+    for a, b in ((e.left, e.right), (e.right, e.left)):
+        if cv(b) == 1:
+            if isinstance(a, ast.Name):
+                return ("acc", a.id)
+            if isinstance(a, ast.BinOp) and isinstance(a.op, ast.RShift) and isinstance(a.left, ast.Name) and isinstance(a.right, ast.Name) and a.right.id == idx:
+                return ("direct", a.left.id)
+        if isinstance(b, ast.BinOp) and isinstance(b.op, ast.LShift) and cv(b.left) == 1 and isinstance(b.right, ast.Name) and b.right.id == idx \
+                and isinstance(a, ast.Name) and (nonzero_only or e is atom):
+            return ("direct", a.id)
+    return None
+
+
 def r2_bitmap_fn(ctx, rep):
+    """decode_bitmap visits bit positions 0..31 in order, tests bit i of the word at position i (shifting accumulator or
+    direct shift / mask), and looks the label up by the position."""
+    from ..paths import cond_paths
     prog = ctx.prog
     fn = prog.func("sensor.decode_bitmap")
     loops = [n for n in ast.walk(fn.node) if isinstance(n, ast.For)]
     ok = False
     why = "expected one loop over range(32)"
-    if len(loops) == 1:
+    if len(loops) == 1 and isinstance(loops[0].target, ast.Name):
         lp = loops[0]
+        idx = lp.target.id
         try:
             rng = list(prog.consteval(lp.iter, fn.module))
         except Exception:
             rng = None
         value_p = fn.params[0]
-        acc = None
-        for s in fn.node.body:
-            if isinstance(s, ast.Assign) and isinstance(s.value, ast.Name) and s.value.id == value_p:
-                acc = s.targets[0].id
-        acc = acc or value_p
-        shifts = [s for s in lp.body if (isinstance(s, ast.Assign) and norm(s) in ("%s = %s >> 1" % (acc, acc),)) or
-                  (isinstance(s, ast.AugAssign) and isinstance(s.op, ast.RShift) and norm(s.target) == acc and norm(s.value) == "1")]
-        tests = [s for s in lp.body if isinstance(s, ast.If) and norm(s.test) in ("%s & 1 == 1" % acc, "%s & 1" % acc, "%s & 1 != 0" % acc, "%s & 1 == 1" % acc)]
-        uses_index = any(isinstance(n, ast.Call) and norm(n.func).endswith(".get") and n.args and norm(n.args[0]) == lp.target.id for n in ast.walk(lp))
+        # names holding the word: the parameter and locals copied from it before the loop
+        words = {value_p}
+        for s_ in fn.node.body:
+            if isinstance(s_, ast.Assign) and isinstance(s_.value, ast.Name) and s_.value.id in words and isinstance(s_.targets[0], ast.Name):
+                words.add(s_.targets[0].id)
+
+        def shifts_of(name):
+            return [(k, s_) for k, s_ in enumerate(lp.body) if
+                    (isinstance(s_, ast.Assign) and isinstance(s_.targets[0], ast.Name) and s_.targets[0].id == name and isinstance(s_.value, ast.BinOp)
+                     and isinstance(s_.value.op, ast.RShift) and norm(s_.value.left) == name and norm(s_.value.right) == "1") or
+                    (isinstance(s_, ast.AugAssign) and isinstance(s_.op, ast.RShift) and norm(s_.target) == name and norm(s_.value) == "1")]
+
+        def writes_of(name):
+            return [s_ for s_ in ast.walk(lp) if isinstance(s_, (ast.Assign, ast.AugAssign)) and
+                    any(isinstance(t, ast.Name) and t.id == name for t in (s_.targets if isinstance(s_, ast.Assign) else [s_.target]))]
+        tests = []
+        for k, s_ in enumerate(lp.body):
+            if isinstance(s_, ast.If):
+                first = cond_paths(s_.test)[0][0][0][0]
+                bt = _bit_test(prog, fn, first, idx)
+                if bt is not None and bt[1] in words:
+                    tests.append((k, bt))
+        uses_index = any(isinstance(n, ast.Call) and norm(n.func).endswith(".get") and n.args and norm(n.args[0]) == idx for n in ast.walk(lp))
         if rng != list(range(32)):
             why = "does not visit bit positions 0..31 in order"
-        elif len(shifts) != 1:
-            why = "does not shift the word right by one bit per position"
         elif len(tests) != 1:
             why = "does not test the lowest bit"
         elif not uses_index:
             why = "does not look the label up by bit position"
         else:
-            ok = True
+            k, (kind, name) = tests[0]
+            sh = shifts_of(name)
+            if kind == "acc" and not (len(sh) == 1 and sh[0][0] > k and len(writes_of(name)) == 1):
+                why = "does not shift the word right by one bit per position"
+            elif kind == "direct" and writes_of(name):
+                why = "modifies the word it tests by position"
+            else:
+                ok = True
     rep.check(ok, "C13.R2", "decode_bitmap", fn.loc(), "decode_bitmap lists the labels of bits 0..31, lowest first",
               bad="decode_bitmap %s" % why)
 
